@@ -14,6 +14,7 @@ import ZV.Driver.CK
 import ZV.Driver.ZCore
 import ZV.Driver.Sps
 import ZV.Driver.C15
+import ZV.Driver.Grouping
 
 def dispatch (line : String) : String :=
   match line.trimAscii.toString.splitOn " " with
@@ -31,6 +32,7 @@ def dispatch (line : String) : String :=
   | "c11" :: ws => ZV.Driver.C11.handle ws
   | "c15" :: ws => ZV.Driver.C15.handle ws
   | "sps" :: ws => ZV.Driver.Sps.handle ws
+  | "grp" :: ws => ZV.Driver.Grouping.handle ws
   | _ => "bad-op"
 
 partial def loop (h : IO.FS.Stream) (out : IO.FS.Stream) : IO Unit := do
